@@ -631,6 +631,8 @@ pub fn run_c16(tier: &str) -> i32 {
     );
     ty!("PriceLevelStatistics", stats_values(), |a: &PriceLevelStatistics, b: &PriceLevelStatistics| stats_fields(a) == stats_fields(b), stats_fields);
     finish_grid(&mut report, t, "C16", "parse(print(v)) == v for every value of the boundary grid (ids x prices x quantities x sides x timestamps x time-in-force x type parameters), per codec type; non-trivial = values with at least one field at a 64-bit boundary or a non-default variant (all of them except the handful of all-zero values)");
+    drop(_rec);
+    crate::conc_checks::run_into(&mut report, "C16", tier, 0.3);
     report.finish()
 }
 
@@ -677,6 +679,24 @@ pub fn run_c17(tier: &str) -> i32 {
             }
         }
         queues.push(OrderQueue::from_vec(l.iter().map(|o| Arc::new(*o)).collect()));
+    }
+    // levels whose running totals have wrapped past 2^64 (two orders of MAX and 2; two icebergs hiding 2^63 each):
+    // outside the precondition of the aggregate properties, but still values of the serde-enabled level type
+    for (a, b) in [(M, 2u64), (1 << 63, 1 << 63), (M - 1, M - 1)] {
+        let l = PriceLevel::new(LEVEL_PRICE);
+        for (k, q) in [a, b].iter().enumerate() {
+            l.add_order(OrderType::IcebergOrder {
+                id: oid(k as u64 + 1),
+                price: LEVEL_PRICE,
+                visible_quantity: *q,
+                hidden_quantity: if a == (1 << 63) { *q } else { 0 },
+                side: Side::Sell,
+                timestamp: 5 + k as u64,
+                time_in_force: TimeInForce::Gtc,
+                extra_fields: (),
+            });
+        }
+        levels.push(l);
     }
     let snap_key = |s: &PriceLevelSnapshot| {
         (
@@ -777,6 +797,7 @@ pub fn run_c17(tier: &str) -> i32 {
         t.per_type.push(("UuidGenerator".into(), t.evaluations - before));
     }
     finish_grid(&mut report, t, "C17", "from_json(to_json(v)) == v for every value of the boundary grid (same grid as C16, incl. integers above 2^53 and the externally tagged GTD variant), per serde-enabled type; packages must still validate after the trip");
+    crate::conc_checks::run_into(&mut report, "C17", tier, 0.3);
     report.finish()
 }
 
@@ -948,6 +969,7 @@ pub fn run_c05(tier: &str) -> i32 {
     report.cov("samples", json!(t.samples));
     report.cov("exhaustive", json!(true));
     report.assumptions = vec!["grid values only; the same rules are observed through PriceLevel::match_order by engine S (C02, C04)".into()];
+    crate::sweeps::add_to(&mut report, "C05", tier);
     report.finish()
 }
 
@@ -959,9 +981,9 @@ pub fn c02_builder() -> Tally {
     let qs = [0u64, 1, 2, 3, M];
     let inits = [0u64, 1, 2, 3, 4, 5, 6, M];
     let taker = oid(900);
-    let mk_tx = |q: u64, k: usize| Transaction {
+    let mk_tx = |q: u64, k: usize, tx_taker: OrderId| Transaction {
         transaction_id: Uuid::from_u128(k as u128),
-        taker_order_id: taker,
+        taker_order_id: tx_taker,
         maker_order_id: oid(k as u64 + 1),
         price: 100,
         quantity: q,
@@ -983,8 +1005,15 @@ pub fn c02_builder() -> Tally {
         seqs.extend(next.iter().cloned());
         frontier = next;
     }
+    // the transactions carry the result's own taker id, an unrelated id, or the other-format twin of the result's id
+    let tx_takers = [taker, oid(7), oid(4)];
+    let result_ids = [taker, oid(1)];
     for init in inits {
+      for (rid, txt) in result_ids.iter().flat_map(|r| tx_takers.iter().map(move |t| (*r, *t))) {
         for s in &seqs {
+            if s.len() > 3 && (rid, txt) != (taker, taker) {
+                continue;
+            }
             let sum: u128 = s.iter().map(|x| *x as u128).sum();
             if sum > init as u128 {
                 continue;
@@ -994,14 +1023,14 @@ pub fn c02_builder() -> Tally {
                 t.nontrivial += 1;
             }
             let r = guarded(|| {
-                let mut m = MatchResult::new(taker, init);
+                let mut m = MatchResult::new(rid, init);
                 let mut msgs = vec![];
                 let mut acc: u128 = 0;
                 if m.remaining_quantity != init || (m.is_complete && init != 0 && s.is_empty() && false) {
                     msgs.push("fresh result: remaining != initial".to_string());
                 }
                 for (k, q) in s.iter().enumerate() {
-                    m.add_transaction(mk_tx(*q, k));
+                    m.add_transaction(mk_tx(*q, k, txt));
                     acc += *q as u128;
                     if m.remaining_quantity as u128 != init as u128 - acc {
                         msgs.push(format!("after {} transactions remaining {} != initial {init} - sum {acc}", k + 1, m.remaining_quantity));
@@ -1021,12 +1050,13 @@ pub fn c02_builder() -> Tally {
             match r {
                 Ok(msgs) => {
                     for m in msgs {
-                        t.fail(format!("C02 MatchResult::new(_, {init}) + transactions {s:?}: {m}"));
+                        t.fail(format!("C02 MatchResult::new({}, {init}) + transactions {s:?} carrying taker id {}: {m}", idname(rid), idname(txt)));
                     }
                 }
                 Err(p) => t.fail(format!("C02 MatchResult builder panicked for initial {init}, transactions {s:?}: {p}")),
             }
         }
+      }
     }
     t.samples.push(json!({"builder": {"initial": 6, "transactions": [1, 2, 3]}}));
     t
